@@ -1421,3 +1421,93 @@ func TestGocvReplay(t *testing.T) {
 	}
 }
 `
+
+// ---------------------------------------------------------------------------
+// driver: (*taskTrace).Do (C08) — further or concurrent answers must return without blocking: three goroutines answer
+// the same request at once, on 1500 fresh instances; a caller that passed the "already decided?" test before the
+// request was decided and finds the one-slot forward buffer full blocks for ever (nobody reads it again).
+
+func init() {
+	registerReplay(replayDriver{
+		modelFree: true,
+		name:      "bpmn task request answered by three goroutines at once",
+		match: func(ob *Oblig) bool {
+			return strings.HasPrefix(ob.Func, "bpmn.(*taskTrace).Do") && ob.Class == "blocking"
+		},
+		build: func(ob *Oblig, m map[string]string) (string, string, bool) {
+			return ".", "// generated by gocv for obligation " + ob.Name + "\n" + tripleAnswerTest, true
+		},
+	})
+}
+
+const tripleAnswerTest = `package bpmn_test
+
+import (
+	"context"
+	"sync"
+	"sync/atomic"
+	"testing"
+	"time"
+
+	"github.com/olive-io/bpmn/schema"
+	"github.com/olive-io/bpmn/v2"
+	"github.com/olive-io/bpmn/v2/pkg/tracing"
+)
+
+func TestGocvReplay(t *testing.T) {
+	var testDoc schema.Definitions
+	LoadTestFile("testdata/task.bpmn", &testDoc)
+	var stuck atomic.Int32
+	for round := 0; round < 1500; round++ {
+		ctx, cancel := context.WithCancel(context.Background())
+		proc, err := bpmn.NewEngine().NewProcess(&testDoc, bpmn.WithContext(ctx))
+		if err != nil {
+			t.Fatal(err)
+		}
+		traces := proc.Tracer().SubscribeChannel(make(chan tracing.ITrace, 256))
+		if err := proc.StartAll(ctx); err != nil {
+			t.Fatal(err)
+		}
+		var req bpmn.TaskTrace
+		deadline := time.After(3 * time.Second)
+		for req == nil {
+			select {
+			case tr := <-traces:
+				if tt, ok := tracing.Unwrap(tr).(bpmn.TaskTrace); ok {
+					req = tt
+				}
+			case <-deadline:
+				t.Fatal("no task request")
+			}
+		}
+		go func() {
+			for range traces {
+			}
+		}()
+		var wg sync.WaitGroup
+		returned := make(chan struct{}, 3)
+		start := make(chan struct{})
+		for i := 0; i < 3; i++ {
+			wg.Add(1)
+			go func() {
+				defer wg.Done()
+				<-start
+				req.Do()
+				returned <- struct{}{}
+			}()
+		}
+		close(start)
+		done := make(chan struct{})
+		go func() { wg.Wait(); close(done) }()
+		select {
+		case <-done:
+		case <-time.After(300 * time.Millisecond):
+			stuck.Add(int32(3 - len(returned)))
+		}
+		cancel()
+	}
+	if n := stuck.Load(); n > 0 {
+		t.Fatalf("%d of 4500 concurrent Do calls never returned", n)
+	}
+}
+`
